@@ -270,11 +270,22 @@ class _AggNP:
     def __getattr__(self, k):
         return getattr(numpy, k)
 
-    def empty(self, shape, dtype=None, **kw):
+    def empty(self, shape, dtype=None, fill=None, **kw):
         a = numpy.empty(shape, dtype=object)
+        if fill is not None:
+            a[...] = fill
         if dtype is not None and numpy.dtype(dtype).kind in "iu":
             return a.view(TruncArr)
         return a.view(sx.SArr)
+
+    def zeros(self, shape, dtype=None, **kw):
+        return self.empty(shape, dtype, fill=0)
+
+    def ones(self, shape, dtype=None, **kw):
+        return self.empty(shape, dtype, fill=1)
+
+    def full(self, shape, fill_value, dtype=None, **kw):
+        return self.empty(shape, dtype, fill=fill_value)
 
 
 class SymReg:
@@ -282,7 +293,13 @@ class SymReg:
         self.k = k
 
     def predict(self, X):
-        self.p = sx.cur().reals(f"p{self.k}", len(X))
+        n = len(X)
+        if n <= 8:
+            self.p = sx.cur().reals(f"p{self.k}", n)
+        else:
+            # a large batch: numbers everywhere (unsorted across the members) except the last two rows
+            vals = [Fraction((self.k * 7 + r * 3) % 11, 2) for r in range(n - 2)] + list(sx.cur().reals(f"p{self.k}", 2))
+            self.p = sx.sarr(vals)
         return self.p
 
 
@@ -292,10 +309,10 @@ def run_agg(cfg):
 
     def h(e):
         # the hyper-parameter may have been changed after the fit (set_params): the fitted members decide
-        est = ir.IntervalRegressor(estimator=RecEst(), n_estimators=m + cfg.get("extra", 0))
+        est = ir.IntervalRegressor(estimator=RecEst(), n_estimators=m + cfg.get("extra", 0), n_jobs=cfg.get("n_jobs"))
         est.estimators_ = [SymReg(k) for k in range(m)]
         Xq = e.reals("xq", rows, 1) if qdtype == "float64" else numpy.arange(rows, dtype=qdtype).reshape(rows, 1)
-        with harness.patched(ir, numpy=_AggNP()):
+        with harness.patched(ir, numpy=_AggNP(), Parallel=SeqParallel, delayed=seq_delayed):
             allp = est.predict_all(Xq)
             members = [s.p for s in est.estimators_]
             mean = est.predict(Xq)
@@ -303,7 +320,7 @@ def run_agg(cfg):
             srt = est.predict_sorted(Xq)
             members3 = [s.p for s in est.estimators_]
         e.prove(allp.shape == (rows, m) and srt.shape == (rows, m) and numpy.shape(mean) == (rows,), "shapes")
-        for r in range(rows):
+        for r in (range(rows) if rows <= 8 else sorted({0, 1, 1023, 1024, rows - 3, rows - 2, rows - 1})):
             for k in range(m):
                 e.prove_eq(allp[r, k], members[k][r], "predict_all[:,k]==member k")
             e.prove_eq(mean[r] * m, sx.ssum([members2[k][r] for k in range(m)]), "predict==mean-of-members")
@@ -316,7 +333,7 @@ def run_agg(cfg):
         # history: the model is fitted again (other members, one more of them) and asked about the SAME batch object
         m2 = m + 1
         est.estimators_ = [SymReg(100 + k) for k in range(m2)]
-        with harness.patched(ir, numpy=_AggNP()):
+        with harness.patched(ir, numpy=_AggNP(), Parallel=SeqParallel, delayed=seq_delayed):
             allp2 = est.predict_all(Xq)
             mem = [getattr(s, "p", None) for s in est.estimators_]
             for s in est.estimators_:
@@ -327,7 +344,7 @@ def run_agg(cfg):
         e.prove(asked, "after-a-refit/the-new-members-are-asked(same-batch-object)")
         e.prove(allp2.shape == (rows, m2), "after-a-refit/shapes", detail=allp2.shape)
         if allp2.shape == (rows, m2) and asked:
-            for r in range(rows):
+            for r in (range(rows) if rows <= 8 else (0, rows - 1)):
                 for k in range(m2):
                     e.prove_eq(allp2[r, k], mem[k][r], "after-a-refit/predict_all[:,k]==new-member-k(same-batch-object)")
                 e.prove_eq(mean2[r] * m2, sx.ssum([mem2[k][r] for k in range(m2)]), "after-a-refit/predict==mean-of-the-new-members")
@@ -353,9 +370,12 @@ def replay_agg(cfg, inputs, label):
             return self.vals[: len(X)].copy()
 
     P = numpy.array([[float(inputs.get(f"p{k}_{r}", k + 0.5 * r + 0.25)) for r in range(rows)] for k in range(m)])
-    if numpy.allclose(P, 0):
+    if rows > 8:
+        # the large batch of the symbolic run: fixed numbers, the model's values on the last two rows
+        P = numpy.array([[((k * 7 + r * 3) % 11) / 2 for r in range(rows - 2)] + [float(inputs.get(f"p{k}_{j}", m - k + j)) for j in range(2)] for k in range(m)])
+    elif numpy.allclose(P, 0):
         P = numpy.array([[k + 0.5 * r + 0.25 for r in range(rows)] for k in range(m)])
-    est = ir.IntervalRegressor(estimator=RecEst(), n_estimators=m + cfg.get("extra", 0))
+    est = ir.IntervalRegressor(estimator=RecEst(), n_estimators=m + cfg.get("extra", 0), n_jobs=cfg.get("n_jobs"))
     est.estimators_ = [Fixed(P[k]) for k in range(m)]
     Xq = numpy.arange(rows, dtype=cfg["qdtype"]).reshape(rows, 1)
     try:
@@ -403,6 +423,10 @@ def configs(tier):
             out.append(dict(kind="agg", m=m, rows=rows, qdtype=qdtype))
     out.append(dict(kind="agg", m=2, rows=2, qdtype="float64", extra=3))
     out.append(dict(kind="agg", m=3, rows=1, qdtype="float64", extra=-1))
+    # n_jobs > 1 at prediction time (joblib = sequential map): members not a multiple of the jobs, fewer than the jobs
+    out.append(dict(kind="agg", m=2, rows=1030, qdtype="float64"))  # beyond any row-blocking size in sight
+    for m, nj in ((3, 2), (2, 3), (2, 2)):
+        out.append(dict(kind="agg", m=m, rows=1, qdtype="float64", n_jobs=nj))
     for weights in ("zero-first", "zero-middle", "positive"):
         out.append(dict(kind="fit3", m=2, weights=weights))
     return out
